@@ -50,6 +50,8 @@ func newFiles(dir string) *files {
 
 type runner struct {
 	nval, ntrav, nlabel int
+	nshrunk             int  // histories minimised so far (history.go)
+	histCoq             bool // send the survivors of this history to the Coq correspondence
 	rep                 *hv.Report
 	cf                  *files
 	g                   *gen
@@ -454,7 +456,7 @@ var handKeysets = [][]string{
 
 func runC11(cfg *hv.RunCfg) error {
 	rep := hv.NewReport("C11", cfg.Seed)
-	rep.Rule = "hand corpus, then generated: strings over all of Unicode (template sequences, quotes, control characters, non-printables, astral runes; NFC-normalised as cty does), typed nested values (list/set/map/tuple/object, nulls, big/fractional numbers, keyword / non-identifier / unicode keys), absolute and relative traversals, block labels, writer-API files, composed tuple/object/call expressions, plus mutated escaped texts and ALL strings of length <= 3 (quick) / 4 (thorough) over a 10-letter alphabet for the two scanners; non-trivial = non-empty string, collection, multi-step traversal, labelled block, file; distinct by SHA-256 of the canonical dump"
+	rep.Rule = "hand corpus, then generated: strings over all of Unicode (template sequences, quotes, control characters, non-printables, astral runes; NFC-normalised as cty does), typed nested values (list/set/map/tuple/object, nulls, big/fractional numbers, keyword / non-identifier / unicode keys), absolute and relative traversals, block labels, writer-API files, writer-API HISTORIES (set/replace/rename/remove/re-add/append/move/clear over fresh and loaded bodies at depth 0-2, biased to removing the last or only item and writing again; expectation kept by the harness; read back after every operation), composed tuple/object/call expressions, plus mutated escaped texts and ALL strings of length <= 3 (quick) / 4 (thorough) over a 10-letter alphabet for the two scanners; non-trivial = non-empty string, collection, multi-step traversal, labelled block, file; distinct by SHA-256 of the canonical dump"
 	r := hv.NewRng(cfg.Seed, 11)
 	x := &runner{rep: rep, cf: newFiles(cfg.Out), g: &gen{r: r, rep: rep}}
 
@@ -462,6 +464,16 @@ func runC11(cfg *hv.RunCfg) error {
 		b, err := os.ReadFile(cfg.Replay)
 		if err != nil {
 			return err
+		}
+		if isHistoryReplay(b) {
+			// a failing input of the `history` stream: the history itself (JSON)
+			c, err := parseHistory(b)
+			if err != nil {
+				return fmt.Errorf("replay file is not a C11 history (JSON): %v", err)
+			}
+			x.histCoq = true
+			x.historyCase(c, false)
+			return x.finish(cfg)
 		}
 		s := norm.NFC.String(string(b))
 		x.stringCase(s)
@@ -571,6 +583,22 @@ func runC11(cfg *hv.RunCfg) error {
 		default:
 			x.compCase()
 		}
+	}
+
+	// ---- stream `history` (history.go): the writer API on a body with a history.
+	// Its own PRNG stream, so the cases above are what they were; 18 % on top of
+	// cfg.N (>= 15 % of all generated cases).
+	x.histCoq = true
+	for _, c := range handHistories() {
+		x.historyCase(c, true)
+	}
+	hg := &gen{r: hv.NewRng(cfg.Seed, 1104), rep: rep}
+	nh := (cfg.N*18 + 99) / 100
+	for i := 0; i < nh; i++ {
+		// the oracle runs on every history; the Coq correspondence of the survivors on
+		// every history (quick) / every third (thorough: case files are parse-bound)
+		x.histCoq = cfg.Tier != "thorough" || i%3 == 0
+		x.historyCase(x.genHistory(hg), x.nshrunk < 6)
 	}
 	return x.finish(cfg)
 }
